@@ -237,6 +237,14 @@ func BuilderFromText(text string) (Builder, error) {
 		}
 	}
 
+	// Every rule occupies a line of at least 9 bytes (7-byte prefix, 1-byte pattern, line feed),
+	// so the size of the text bounds the number of rules. The capacity hint is only a hint:
+	// clamp it, so that an absurd value cannot make the make() calls below panic or exhaust memory.
+	maxRuleCount := (len(line)+len(text))/8 + 1
+	for i := range dskr {
+		dskr[i] = min(dskr[i], maxRuleCount)
+	}
+
 	dsb := Builder{
 		NewDomainMapMatcher(dskr[0]),
 		NewDomainSuffixTrieMatcherBuilder(dskr[1]),
